@@ -290,3 +290,65 @@ Proof.
   - exact (JT_step v c t c' Hv1 (JR_reach v np ops c Hr) (JS_reach v np ops c Hr) (JZ_reach v np ops c Hv2 Hr)
                    (JE4_reach v np ops c Hv2 Hr) IH Hs).
 Qed.
+
+(* ---- E3: an unclosed resolved channel is in the signals of a promise of lower or equal index *)
+Lemma jmem_in : forall x l, mem_nat x l = true <-> In x l.
+Proof.
+  induction l as [|a l IH]; simpl; [split; [discriminate|tauto]|].
+  rewrite orb_true_iff, IH, Nat.eqb_eq. split; intros [H|H]; auto.
+Qed.
+
+Lemma resclosed_close_sigs : forall sigs c k,
+  p_resclosed (getp (close_sigs c sigs) k) = if mem_nat k sigs then true else p_resclosed (getp c k).
+Proof.
+  induction sigs as [|s sigs IH]; intros c k; simpl; [reflexivity|].
+  rewrite IH, getp_setp. destruct (Nat.eqb_spec k s); subst.
+  - rewrite Nat.eqb_refl. simpl. destruct (mem_nat s sigs); reflexivity.
+  - destruct (Nat.eqb_spec s k); [congruence|]. simpl. reflexivity.
+Qed.
+
+Lemma resclosed_close_joined : forall p, p_resclosed (close_joined p) = p_resclosed p.
+Proof. intros. unfold close_joined. destruct (p_joined p); reflexivity. Qed.
+
+Definition JE3 (c : jconfig) : Prop :=
+  forall k, p_resclosed (getp c k) = false -> exists r, (r <= k)%nat /\ In k (p_signals (getp c r)).
+
+Lemma JE3_step : forall v c t c',
+  (forall t th, nth_error (jthreads c) t = Some th -> j_pc th = QJPar -> (j_par th < j_cur th)%nat) ->
+  JE3 c -> jstep v c t = Some c' -> JE3 c'.
+Proof.
+  intros v c t c' HF HE Hs.
+  jleaves v Hs Hth.
+  all: pose proof (HF t th Hth) as Hlt.
+  all: goal_matches.
+  all: norm_negb.
+  all: intros k0 Hrc; revert Hrc.
+  all: repeat progress (autorewrite with getp_simp; rewrite ?resclosed_close_sigs).
+  all: eqb_all; simpl; rewrite ?resclosed_close_joined; simpl.
+  all: repeat match goal with |- context [mem_nat ?a ?b] => destruct (mem_nat a b) eqn:? end; intros Hrc; try discriminate Hrc.
+  all: destruct (HE _ Hrc) as [r [Hle Hin]].
+  (* same holder *)
+  all: try (exists r; split; [exact Hle|];
+            repeat progress (autorewrite with getp_simp; rewrite ?signals_close_sigs);
+            eqb_all; simpl; rewrite ?signals_close_joined; simpl;
+            first [ exact Hin | (apply in_or_app; left; exact Hin)
+                  | (exfalso; apply jmem_in in Hin;
+                     repeat match goal with H : mem_nat _ _ = false |- _ =>
+                       autorewrite with getp_simp in H; rewrite ?Nat.eqb_refl in H; simpl in H;
+                       rewrite ?signals_close_joined in H; simpl in H end; congruence) ]; fail).
+  (* the holder was joined: its signals moved to the promise it joined *)
+  all: try (exists (j_par th); specialize (Hlt ltac:(assumption)); split;
+            [ repeat progress (autorewrite with getp_simp in Hin);
+              match type of Hin with In _ (p_signals (getp _ ?r0)) => assert (r0 = j_cur th) by congruence end; lia
+            | repeat progress (autorewrite with getp_simp; rewrite ?signals_close_sigs);
+              eqb_all; simpl; rewrite ?signals_close_joined; simpl; apply in_or_app; right; congruence ]; fail).
+  all: specialize (Hlt Heqj);
+       destruct (Nat.eq_dec r (j_cur th)) as [->|Hr1];
+       [ exists (j_par th); split; [lia|];
+         repeat progress (autorewrite with getp_simp; rewrite ?signals_close_sigs);
+         eqb_all; simpl; rewrite ?signals_close_joined; simpl; apply in_or_app; right; exact Hin
+       | exists r; split; [exact Hle|];
+         repeat progress (autorewrite with getp_simp; rewrite ?signals_close_sigs);
+         eqb_all; simpl; rewrite ?signals_close_joined; simpl;
+         first [ exact Hin | (apply in_or_app; left; exact Hin) | congruence ] ].
+Qed.
